@@ -164,7 +164,7 @@ impl SubCheck for Notifications {
 				// most histories start with a few accepted subscriptions on connection 0
 				let mut head = vec![];
 				for k in 0..pre {
-					head.push(H::Subscribe { conn: if k == 2 { 1 } else { 0 }, b: k % 2 == 1 });
+					head.push(H::Subscribe { conn: if k == 2 { 1 } else { 0 }, b: k % 2 == 1, reuse: None });
 					head.push(H::Act { inst: u16::MAX, cmd: Cmd::Accept });
 				}
 				head.extend(steps);
